@@ -530,11 +530,38 @@ impl<S: Read> Parser<S> {
         let len = len as usize;
         let mut rdata = Vec::with_capacity(len);
         while rdata.len() < len {
-            let high_nibble = self.parse_ascii_hex_digit()?;
+            let high_nibble = self.parse_leading_ascii_hex_digit()?;
             let low_nibble = self.parse_ascii_hex_digit()?;
             rdata.push((high_nibble << 4) | low_nibble);
         }
         Ok(rdata.try_into().unwrap())
+    }
+
+    /// Parses the first ASCII hexadecimal digit of an octet. Per
+    /// [RFC 3597 § 5], the hexadecimal data may be given as several
+    /// words separated by whitespace (each containing an even number
+    /// of digits), so when the current word is exhausted, parsing
+    /// continues with the next word on the (logical) line, if any.
+    ///
+    /// [RFC 3597 § 5]: https://datatracker.ietf.org/doc/html/rfc3597#section-5
+    fn parse_leading_ascii_hex_digit(&mut self) -> Result<u8> {
+        let position = self.reader.position();
+        match self.reader.read_field_octet()? {
+            Some(digit) => match ascii_hex_digit_to_nibble(digit) {
+                Some(n) => Ok(n),
+                None => Err(Error::new(
+                    self.reader.position(),
+                    ErrorKind::InvalidHexDigit,
+                )),
+            },
+            None => {
+                if self.reader.skip_to_next_field_or_to_eol()? == FieldOrEol::Field {
+                    self.parse_ascii_hex_digit()
+                } else {
+                    Err(Error::new(position, ErrorKind::UnexpectedEndOfHexRdata))
+                }
+            }
+        }
     }
 
     /// Parses a single ASCII hexadecimal digit.
